@@ -281,7 +281,45 @@ def random_case(rng, small=True, **over):
                 footprint=footprint, analytic=analytic, halo=halo,
                 precision=str(rng.choice(["double", "double", "single"])))
     case.update(over)
+    limit_growth(case)
     case["_kinds"] = dict(halo=hk, levels=lk, meas=mk, prof="uniform" if prof[0][0] == prof[0][-1] else "varying")
+    return case
+
+
+def shooting_growth(case):
+    """max over retained modes of sum_i Re(lambda_i) dz_i: log of the amplification of rounding
+    errors by the two auxiliary sweeps (the quantity the property statements bound by 18)"""
+    q = np.asarray(case["q"])
+    ny, nx = q.shape
+    xmx, ymx = case["domain"]
+    dx, dy = xmx / nx, ymx / ny
+    halo = case.get("halo")
+    if halo is None:
+        halo = max(xmx, ymx)
+    Nx, Ny = nx + 2 * int(halo / dx), ny + 2 * int(halo / dy)
+    nlx, nly = case["modes"]
+    if nlx > Nx or nly > Ny:
+        nlx, nly = Nx, Ny
+    Lx = 2 * np.pi * (nlx // 2) / (dx * Nx)
+    Ly = 2 * np.pi * (nly // 2) / (dy * Ny)
+    u, v, Kx, Ky, Kz = [np.asarray(p, dtype=float) for p in case["profiles"]]
+    z = np.asarray(case["z"], dtype=float)
+    w = (Kx * Lx ** 2 + Ky * Ly ** 2) / Kz + 1j * (np.abs(u) * Lx + np.abs(v) * Ly) / Kz
+    lam = np.sqrt(w)
+    return float(np.sum(lam.real[:-1] * np.diff(z)))
+
+
+def limit_growth(case, bound=9.0):
+    """enlarge the horizontal extent until rounding amplification exp(growth) stays small
+    (keeps the model-vs-implementation gap far below the correspondence tolerance)"""
+    for _ in range(40):
+        if shooting_growth(case) <= bound:
+            return case
+        f = 1.3
+        case["domain"] = (case["domain"][0] * f, case["domain"][1] * f)
+        case["meas_pt"] = (case["meas_pt"][0] * f, case["meas_pt"][1] * f)
+        if case.get("halo") is not None:
+            case["halo"] = case["halo"] * f
     return case
 
 
